@@ -6,11 +6,14 @@ CONFIG = {
                 "and of the 4-byte frame prefix and reader loop: for EVERY well-formed point of each of the five value types (any name bytes, tags id, time, nil flag, "
                 "aux list with typed values, typed nil markers, empty strings, untyped nil, any aggregate count) decode(encode p) = p; a stream of point / stats / trace "
                 "frames decodes to the same point sequence; Tags.ID() round-trips for NUL-free tag maps; for EVERY byte string the frame reader and message decoder "
-                "return Ok or Err, never crash. MaxMessageSize, the dispatch table and the protobuf field tables (numbers, wire kinds, labels) are re-read from the source "
+                "return Ok or Err, never crash. Request/reply pairing on pooled connections, over a FIFO-connection model of the client pools: for EVERY call sequence, "
+                "if a connection whose reply was not fully read is never reused, every reply frame a call reads answers that call's own request (and a refutation without the discipline). MaxMessageSize, the dispatch table and the protobuf field tables (numbers, wire kinds, labels) are re-read from the source "
                 "each run. The models are diffed against the real ReadLV/WriteTLV/handleConn, the real <T>PointEncoder/IteratorEncoder (byte equality) and the real "
                 "<T>PointDecoder/NewReaderIterator (decoded values; ok/err/panic class on arbitrary and mutated frames). Differential only (no theorem): well-formed "
                 "request envelopes with invalid or edge contents for every message type are fed to the real handleConn (no handler may panic, reply types must match the "
-                "dispatch model), and Unmarshal(Marshal(v)) = v is checked for every request/response type of rpc.go.",
+                "dispatch model), and Unmarshal(Marshal(v)) = v is checked for every request/response type of rpc.go. The real ShardWriter and MetaExecutor clients with their real "
+                "connection pool are driven against a scripted node (late, error, undecodable, missing replies; cut and stalled connections): what each caller is handed and which "
+                "connection each request used are checked against the pairing model and the executable spec.",
         "note": "Trusts Coq kernel, genconsts translator, the harness and its canonicalisers; io.ReadFull semantics; gogo/protobuf is modelled for the three streamed-point "
                 "messages only; rpc.go message bodies (protobuf, JSON, influxql String/Parse) and the request handlers are exercised, not modelled; heap use beyond the frame "
                 "buffer is not modelled (the point frame reader allocates the announced uint32 length before reading).",
@@ -19,7 +22,7 @@ CONFIG = {
     },
     "harness": "h_c15",
     "level": "proof",
-    "extra_proof_files": ["PointProofs"],
+    "extra_proof_files": ["PointProofs", "PairProofs"],
     "n": {"quick": 2000, "thorough": 12000},
     "shard": 300,
     "bytes_keys": ["stream", "buf", "name", "key", "val", "s"],
@@ -34,11 +37,14 @@ CONFIG = {
             "several requests on one connection - all against a real tsdb.Store holding series of every field type; "
             "(B, kind rpc) every request/response type of rpc.go: zero value, typical value, extremes; "
             "(C, kinds point/stream/raw/ptconsts) every aux kind alone (incl. '' vs the string nil marker) and all together for each of the 5 point types, extreme names/times/values, "
-            "IteratorEncoder streams with and without trace frame, every truncation of a valid frame, hand-built frames (missing required fields, empty stats/trace, aux without DataType, "
-            "groups, stray end-group, unknown wire types, short fixed32). Then seeded generation (1/16 ReadLV, 1/16 WriteTLV, 2/16 random listener streams, 3/16 designed envelopes with "
+            "IteratorEncoder streams with and without trace frame and with periodic stats frames firing mid-stream (slow source, 1 ms stats interval), every truncation of a valid frame, hand-built frames (missing required fields, empty stats/trace, aux without DataType, "
+            "groups, stray end-group, unknown wire types, short fixed32); "
+            "(D, kind pair) for each of WriteShard, ExecuteStatement, TaskManagerStatement, MeasurementNames, TagKeys, TagValues, FieldDimensions, MapType, IteratorCost: sequences of 3-4 "
+            "token-carrying requests through the real client and pool (120 ms timeout) to a scripted node whose replies echo the token it read: first reply late and arriving while idle, "
+            "late reply overtaken by the next request, error / undecodable replies, cut, half-written and stalled connections, mixed request types on one pooled connection. Then seeded generation (n/40 random pairing scenarios; (1/16 ReadLV, 1/16 WriteTLV, 2/16 random listener streams, 3/16 designed envelopes with "
             "payload bytes flipped/truncated/extended and re-framed, 3/16 rpc values, 3/16 points, 1/16 encoder streams, 2/16 raw/mutated/hand-built frame streams). "
             "distinct = distinct byte stream / value; non-trivial = header complete (lv), non-empty payload (wr), at least one reply frame (serve), non-default value (rpc), "
-            "point with name, tags or aux (point), at least one point (stream), at least one frame header (raw)",
+            "point with name, tags or aux (point), at least one point (stream), at least one frame header (raw), >= 2 calls with a late or non-success reply (pair)",
     "trusted_base": [
         "C15: request/response structs of coordinator/rpc.go (gogo/protobuf, JSON, influxql String/Parse) are NOT modelled: their round trip (kind rpc) and the handlers' behaviour "
         "on valid envelopes with invalid contents (kind serve) are differential observations only, no theorem; JSON-carried strings are generated as valid UTF-8, tag keys/values without NUL",
@@ -48,12 +54,15 @@ CONFIG = {
         "spawned by a handler kills the harness process and is reported by bin/check with the announced input",
         "C15: allocation is observed through runtime.MemStats.TotalAlloc deltas (>= MaxMessageSize or not) for ReadLV only",
         "C15: the dispatch table and MaxMessageSize are regenerated from coordinator/service.go by genconsts on every run",
+        "C15: pairing model: TCP connections are FIFO and the node answers the requests of one connection in order (the fake node does, like handleConn); whether a call timed out and "
+        "whether the pooled connection was reused are OBSERVED inputs of the model (timing is not predicted); calls are sequential per pool",
         "C15: decodeIteratorTrace is abstracted as a predicate trace_ok on the trace bytes (the harness decodes under context.Background(), where it accepts everything)",
     ],
     "modelled": "modelled with theorems: coordinator/service.go ReadType/ReadLV/ReadTLV/WriteTLV/WriteLV and the type switch of handleConn (theories/C15/Model.v); query/point.go "
                 "encodeTags/decodeTags/newTagsID, encodeAux/decodeAux, query/point.gen.go encode<T>Point/decode<T>Point and <T>PointEncoder/<T>PointDecoder, the reader loop of "
                 "<t>ReaderIterator.Next, IteratorEncoder stats/trace frames, protobuf wire encoding/decoding of Point/Aux/IteratorStats incl. unknown fields, wrong wire types, groups, "
-                "required-field check (theories/C15/PointModel.v). Differential only: process* request handlers, every rpc.go message body, TCP behaviour",
+                "required-field check (theories/C15/PointModel.v); the unread-reply queue of a pooled client connection and the reuse discipline of shard_writer.go / meta_executor.go / pool.go "
+                "(theories/C15/PairModel.v). Differential only: process* request handlers, every rpc.go message body, TCP behaviour",
     "assumptions": ["io.ReadFull/binary.Read semantics: a short read consumes all remaining bytes and returns an error (io.EOF when nothing was read)",
                     "heap use beyond the TLV frame buffer is not modelled; the point frame reader's make([]byte, sz) for a uint32 sz is outside the MaxMessageSize claim",
                     "well-formed point: 64-bit values, uint32 aggregate count, Tags.ID() of a tag map without NUL bytes, aux values of the ten typed kinds or untyped nil, frame body < 2^32 bytes"],
